@@ -1113,6 +1113,13 @@ class Exec:
         if spec is None:
             raise ContractMismatch(f'loop #{ordn} at line {s.lineno} of {self.func.qual} needs an invariant '
                                    f'(the sidecar contract has none)')
+        if 'header' in spec:
+            # optional fingerprint: an invariant written for `for k in range(1, d)` says nothing about a loop that runs the other
+            # way round; a contract may pin the iterable it was written for, any other header is "contract does not fit" (undecided)
+            want = spec['header'] if isinstance(spec['header'], (list, tuple)) else [spec['header']]
+            have = ast.unparse(s.iter) if isinstance(s, ast.For) else ast.unparse(s.test)
+            if have not in want:
+                raise ContractMismatch(f'loop #{ordn} of {self.func.qual} iterates over `{have}`; the invariant was written for `{want[0]}`')
         # `peel`: the first iteration(s) are executed as they are (code that special-cases `i == 0`, e.g. a variable that
         # is None before the first pass); the invariant cuts the loop from iteration `peel` on
         peel = spec.get('peel', 0) if it is not None else 0
